@@ -204,9 +204,29 @@ pub fn run_send(args: &[String]) -> i32 {
                 w.put(&json!({"tool_error": "could not connect"}));
                 return;
             };
-            for op in ops.iter() {
+            let mut failed_before = 0usize;
+            for (oi, op) in ops.iter().enumerate() {
                 let big = op["inflate"].as_u64().is_some();
                 let mut frames: Vec<Value> = Vec::new();
+                // every third operation comes after operations that fail (or may fail) in the encoder: a payload holding an atom that
+                // is too long, and one with more distinct atoms than a distribution header can list.  Whatever those wrote is read and
+                // set aside; the operation proper must then put exactly its own frame on the wire
+                if oi % 3 == 1 && !big {
+                    let a = pid_of(&op["a"]);
+                    let long_atom = OwnedTerm::Tuple(vec![OwnedTerm::Atom(Atom::new(&"x".repeat(70_000)))]);
+                    let many = OwnedTerm::Tuple((0..300).map(|i| OwnedTerm::Atom(Atom::new(&format!("atom_{i}")))).collect());
+                    for bad in [long_atom, many] {
+                        let rb = cp.conn.send_message(a.clone(), a.clone(), bad).await;
+                        if rb.is_err() {
+                            failed_before += 1;
+                        }
+                        while let Ok(Some(_)) = tokio::time::timeout(Duration::from_millis(if rb.is_ok() { 300 } else { 8 }), read_dist_frame(&mut cp.peer.rd)).await {
+                            if rb.is_ok() {
+                                break;
+                            }
+                        }
+                    }
+                }
                 let r;
                 if big {
                     // the frame is larger than the socket buffers: the peer starts reading only after they have filled,
@@ -236,8 +256,10 @@ pub fn run_send(args: &[String]) -> i32 {
                         }
                     }
                 }
-                w.put(&json!({"id": op["id"], "mode": if header_mode { "header" } else { "pass_through" }, "result_ok": r.is_ok(), "err": r.err(), "frames": frames}));
+                w.put(&json!({"id": op["id"], "mode": if header_mode { "header" } else { "pass_through" }, "result_ok": r.is_ok(), "err": r.err(), "frames": frames,
+                              "after_failed_operations": oi % 3 == 1 && !big}));
             }
+            w.put(&json!({"id": -1, "mode": if header_mode { "header" } else { "pass_through" }, "failed_operations_injected": failed_before}));
         }
     });
     w.finish();
@@ -374,8 +396,11 @@ pub fn run_recv(args: &[String]) -> i32 {
             // a frame of its own (malformed frames of every shape the messages can be cut into); what those yield is not recorded
             let soak = sc["soak"].as_u64().unwrap_or(0);
             let mut n_junk = 0usize;
+            // (prefixes of fragment frames would leave pieces in the assembler under the sequence ids the scenario uses: those come
+            // from the frames of another scenario, "junk_from", whose sequences the scenario proper does not use)
+            let junk_from: Vec<Vec<u8>> = sc["junk_from"].as_array().map(|a| a.iter().map(|f| bytes_of(&f["bytes"])).collect()).unwrap_or_default();
             for _ in 0..soak {
-                for f in frames.iter() {
+                for f in frames.iter().chain(junk_from.iter()) {
                     for k in 1..f.len() {
                         stream.extend_from_slice(&(k as u32).to_be_bytes());
                         stream.extend_from_slice(&f[..k]);
